@@ -119,7 +119,7 @@ theorem usf_doc (u : Updater) (now v : Val) (part q : String) (rest : List Strin
       (match dget part fs with
        | some sub => (updateSingleField u now v (q :: rest) sub).bind
            (fun sub' => .ok (.doc (dset part sub' fs)))
-       | none => if u = .unset then .ok (.doc fs)
+       | none => if u = .unset || u = .pop then .ok (.doc fs)
          else (updateSingleField u now v (q :: rest) (.doc [])).bind
            (fun sub' => .ok (.doc (dset part sub' fs)))) := by
   rw [updateSingleField]
@@ -277,7 +277,7 @@ theorem runUpdater_doc_touch (u : Updater) (now v : Val) (p : String) (fs : Fiel
     split at h
     · cases h
     · split at h
-      · cases h
+      · cases h; exact ⟨_, rfl, .inl rfl⟩
       · cases h; exact ⟨_, rfl, .inr (.inl ⟨_, rfl⟩)⟩
       · cases h
   · simp only [runUpdater] at h
